@@ -34,6 +34,7 @@ NLB    == [k |-> "t", t |-> "\n", gap |-> "sp", lb |-> TRUE, semi |-> FALSE, hd 
 THD(t, g, body, dl) == [k |-> "t", t |-> t, gap |-> g, lb |-> FALSE, semi |-> FALSE,
                         hd |-> <<[body |-> body, dl |-> dl]>>, nlk |-> ""]
 NLF    == [k |-> "t", t |-> "\n", gap |-> "sp", lb |-> FALSE, semi |-> FALSE, hd |-> <<>>, nlk |-> "sep"]   \* the newline that ends the command line
+TC(t)  == [k |-> "t", t |-> t, gap |-> "sp",  lb |-> FALSE, semi |-> FALSE, hd |-> <<>>, nlk |-> "cs"]   \* the ")" of $( ) after a newline: part of a word
 M(m)   == [k |-> "m", m |-> m]
 
 (* nonterminal: name, depth, top (not inside a compound command), nh (no    *)
@@ -165,6 +166,20 @@ Alts(nt) ==
          << A(0, <<M("ln["), NT("list", 0, TRUE, FALSE, FALSE, ""),  M("]ln"), NLF>>),
             A(1, <<M("ln["), NT("list", 0, TRUE, FALSE, FALSE, ";"), M("]ln"), NLF>>),
             A(1, <<M("ln["), NT("list", 0, TRUE, FALSE, FALSE, "&"), M("]ln"), NLF>>) >>
+    \* ---------------------------------------------------------- newline focus: a newline outside and, later, one inside a command substitution
+    [] nt.n = "nlprog" ->
+         LET CsNL == <<M("w["), T("$("), M("cs$["), M("ln["), M("ao["), M("pl["), M("c["), M("simple["), TA("a")>> \o WLit("a")
+                     \o <<M("]simple"), M("]c"), M("]pl"), M("]ao"), M("]ln"), NL, TC(")"), M("]cs"), M("]w")>>
+             CsBq == <<M("w["), T("`"), M("cs`["), M("ln["), M("ao["), M("pl["), M("c["), M("simple["), TA("a")>> \o WLit("a")
+                     \o <<M("]simple"), M("]c"), M("]pl"), M("]ao"), M("]ln"), NL, T("`"), M("]cs"), M("]w")>>
+             Cmd(cs) == <<M("ao["), M("pl["), M("c["), M("simple["), T("a")>> \o WLit("a") \o cs \o <<M("]simple"), M("]c"), M("]pl"), TS(";"), M("sep:;"), M("]ao")>>
+             S0 == <<M("ao["), M("pl["), M("c["), M("simple["), T("a")>> \o WLit("a") \o <<M("]simple"), M("]c"), M("]pl"), M("]ao")>>
+             Wrap(b) == <<M("ln["), M("ao["), M("pl["), M("c[")>> \o b \o <<M("]c"), M("]pl"), M("]ao"), M("]ln"), NLF>>
+         IN
+         << A(0, Wrap(<<TL("{"), NLB, M("grp["), M("ln[")>> \o Cmd(CsNL) \o <<M("]ln"), T("}"), M("]grp")>>)),
+            A(1, Wrap(<<TL("{"), NLB, M("grp["), M("ln[")>> \o Cmd(CsBq) \o <<M("]ln"), T("}"), M("]grp")>>)),
+            A(1, Wrap(<<TL("if"), M("if["), M("cond["), M("ln[")>> \o S0 \o <<M("]ln"), NL, M("]cond"), TL("then"), M("then["), M("ln[")>> \o Cmd(CsNL \o CsNL)
+                      \o <<M("]ln"), M("]then"), T("fi"), M("]if")>>)) >>
     \* ---------------------------------------------------------- word focus: one argument word, the budget goes into its parts
     [] nt.n = "wprog" ->
          << A(0, <<M("ln["), M("ao["), M("pl["), M("c["), M("simple["), T("a")>> \o WLit("a") \o <<Word(nt), M("]simple"), M("]c"), M("]pl"), M("]ao"), M("]ln"), NLF>>) >>
